@@ -187,6 +187,11 @@ def main(argv=None):
         rac, racerr = run_rac(cfg, tier, seed, budget)
         if racerr:
             broken.append(racerr)
+        elif rac is not None:
+            need = getattr(cfg, "RAC_MIN", {}).get(tier, 1)
+            if rac["evaluations"] < need and not rac["failures"]:
+                # vacuity guard of the run-time part: a harness that silently skipped its sections must not report "held"
+                broken.append(f"run-time contracts evaluated {rac['evaluations']} times, fewer than the {need} this harness always reaches")
 
     # ------------------------------------------------------------------ verdict
     known = load_known()
